@@ -1102,6 +1102,49 @@ def _inline_single_use_temps(fn):
     walk(fn.body)
 
 
+def _lower_bool_flags(fn):
+    """`flag = A and B` (or / not ...), where flag is a local that is only ever truth-tested (if / while / not / and / or), becomes
+    `if A and B: flag = True else: flag = False`: the CFG then has the operands as separate tests with their own edges, and the
+    flag-sensitive path search follows the constant through the later test - the same paths as the statement form
+    `if not A: return; if not B: return`."""
+    parents = {}
+    for n in ast.walk(fn):
+        for c in ast.iter_child_nodes(n):
+            parents[id(c)] = n
+
+    def only_tested(name):
+        for n in ast.walk(fn):
+            if isinstance(n, ast.Name) and n.id == name and isinstance(n.ctx, ast.Load):
+                cur = n
+                par = parents.get(id(cur))
+                while isinstance(par, (ast.UnaryOp, ast.BoolOp)) and (not isinstance(par, ast.UnaryOp) or isinstance(par.op, ast.Not)):
+                    cur, par = par, parents.get(id(par))
+                if not (isinstance(par, (ast.If, ast.While, ast.IfExp, ast.Assert)) and par.test is cur):
+                    return False
+        return True
+
+    def rewrite(stmts):
+        for k, st in enumerate(list(stmts)):
+            for fld in ("body", "orelse", "finalbody"):
+                sub = getattr(st, fld, None)
+                if isinstance(sub, list) and not isinstance(st, (ast.FunctionDef, ast.AsyncFunctionDef, ast.ClassDef)):
+                    rewrite(sub)
+            for h in getattr(st, "handlers", []) or []:
+                rewrite(h.body)
+            if isinstance(st, ast.Assign) and len(st.targets) == 1 and isinstance(st.targets[0], ast.Name):
+                v = st.value
+                core = v.operand if isinstance(v, ast.UnaryOp) and isinstance(v.op, ast.Not) else v
+                if isinstance(core, ast.BoolOp) and only_tested(st.targets[0].id):
+                    def mk(c):
+                        a = ast.Assign(targets=[ast.Name(id=st.targets[0].id, ctx=ast.Store())], value=ast.Constant(value=c))
+                        return ast.copy_location(a, st)
+                    new = ast.If(test=v, body=[mk(True)], orelse=[mk(False)])
+                    ast.copy_location(new, st)
+                    ast.fix_missing_locations(new)
+                    stmts[stmts.index(st)] = new
+    rewrite(fn.body)
+
+
 def _lower_ifexp(fn):
     """`x = A if C else B`, `return A if C else B`, `f(A if C else B)` (sole argument, f a plain name / attribute chain) become
     if/else statements: the CFG then has the two arms as paths, like the statement form the rules were written against.  The
@@ -1301,6 +1344,8 @@ def normalize_module(tree):
     _closure_factory_to_def(tree)
     for fn in [n for n in ast.walk(tree) if isinstance(n, (ast.FunctionDef, ast.AsyncFunctionDef))]:
         _lower_ifexp(fn)
+    for fn in [n for n in ast.walk(tree) if isinstance(n, (ast.FunctionDef, ast.AsyncFunctionDef))]:
+        _lower_bool_flags(fn)
     for fn in [n for n in ast.walk(tree) if isinstance(n, (ast.FunctionDef, ast.AsyncFunctionDef))]:
         _index_loop_to_for(fn)
     for fn in [n for n in ast.walk(tree) if isinstance(n, (ast.FunctionDef, ast.AsyncFunctionDef))]:
